@@ -458,7 +458,7 @@ def run_one(case, fw, R, family="replay", sample_every=400):
                                 "stop": obs["stop"], "classifier": obs["classifier"][:12], "escaped": obs["escaped"][:4],
                                 "negative_delays": obs["negative_delays"][:4]}, replay_case)
     attempts = obs["attempts"]
-    if len(attempts) >= 2 or obs["start_results"] or obs["stop"]:
+    if len(attempts) >= 2 or obs["start_results"] or obs["stop"] or V:
         R.seen("nontrivial", h([fw, case]))
     R.seen("families", family)
     R.seen("outcome_histories", _consumed(case, obs))
